@@ -66,6 +66,7 @@ type checker struct {
 	t0       time.Time
 
 	distinctAtFailure int
+	failW             *WorkerResult // the worker whose failure is being handled
 }
 
 func envInt(name string, def int64) int64 {
@@ -374,6 +375,7 @@ func (c *checker) run() int {
 		}
 		if r.Failure != nil && (failure == nil || r.Failure.Size() < failure.Size()) {
 			failure = r.Failure
+			c.failW = r
 		}
 		if len(samples) < 3 && len(r.Samples) > 0 {
 			samples = append(samples, r.Samples[0])
@@ -526,6 +528,11 @@ func (c *checker) handleFailure(t *kit.Trace, agg *kit.Stats) int {
 	if base == nil {
 		return c.fail2("replay of failing run could not run (exit %d): %s", code, se)
 	}
+	if base.Viol == nil && !c.desc.FreshProcess && c.failW != nil {
+		if rc, handled := c.sequenceReplay(t); handled {
+			return rc
+		}
+	}
 	if base.Viol == nil {
 		return c.fail2("a run failed (%s) but its recorded trace does not fail on replay in a fresh process: simulator non-determinism, not a finding; trace kept at %s", violClass(t), raw)
 	}
@@ -623,6 +630,68 @@ func (c *checker) handleFailure(t *kit.Trace, agg *kit.Stats) int {
 	_ = c.writeEvidence(agg, c.distinctAtFailure, 0, []*kit.Trace{fin.Trace}, nil, nil, 1, final)
 	fmt.Printf("VIOLATION property=%s replay=%s\n", c.id, final)
 	return 1
+}
+
+// sequenceReplay handles a failure that does not reproduce when its run is
+// executed alone: if re-drawing a suffix of the worker's run sequence in a
+// fresh process reproduces the same class, the library carries state across
+// uses; the shortest such suffix (by doubling) becomes the replay file.
+func (c *checker) sequenceReplay(t *kit.Trace) (int, bool) {
+	w := c.failW
+	class := violClass(t)
+	mk := func(from int64) *kit.Trace {
+		return &kit.Trace{Property: c.id, Seed: c.seed, Kind: "regenerate-sequence", Config: map[string]int64{"start": w.First, "stride": w.Stride, "from": from, "to": w.FailN}}
+	}
+	try := func(from int64) *ReplayResult {
+		p := filepath.Join(c.outDir(), "seq-cand.json")
+		if mk(from).WriteFile(p) != nil {
+			return nil
+		}
+		rr, _, _ := c.replayOnce(p)
+		if rr != nil && rr.Viol != nil && rr.Viol.Class == class {
+			return rr
+		}
+		return nil
+	}
+	var hit *ReplayResult
+	from := w.FailN
+	for span := int64(1); ; span *= 2 {
+		from = w.FailN - span
+		if from < 0 {
+			from = 0
+		}
+		if hit = try(from); hit != nil || from == 0 {
+			break
+		}
+	}
+	if hit == nil {
+		return 0, false
+	}
+	// tighten: drop leading runs one power of two at a time
+	for step := (w.FailN - from) / 2; step >= 1; step /= 2 {
+		if rr := try(from + step); rr != nil {
+			from += step
+			hit = rr
+		}
+	}
+	final := mk(from)
+	final.Viol = hit.Viol
+	dir := filepath.Join(c.verif, "replays", c.id)
+	_ = os.MkdirAll(dir, 0o755)
+	path := filepath.Join(dir, fmt.Sprintf("%d-seq-%s.json", t.Seed, safeName(class)))
+	if final.WriteFile(path) != nil {
+		return 0, false
+	}
+	if rr, _, _ := c.replayOnce(path); rr == nil || rr.Viol == nil || rr.Viol.Class != class {
+		return 0, false
+	}
+	fmt.Printf("violation: class=%s key=%s\n%s\n", hit.Viol.Class, hit.Viol.Key, hit.Viol.Detail)
+	fmt.Printf("replay re-draws runs %d..%d of worker sequence (start %d, stride %d) of VERIF_SEED %d in one fresh process\n", from, w.FailN, w.First, w.Stride, c.seed)
+	agg := kit.NewStats()
+	agg.Runs = w.FailN - from + 1
+	_ = c.writeEvidence(agg, c.distinctAtFailure, 0, []*kit.Trace{final}, nil, nil, 1, path)
+	fmt.Printf("VIOLATION property=%s replay=%s\n", c.id, path)
+	return 1, true
 }
 
 func violClass(t *kit.Trace) string {
